@@ -77,7 +77,7 @@ func genRouteTag(t *rapid.T) routeTag {
 		case 4:
 			rt.opts = append(rt.opts, "host="+rapid.SampledFrom([]string{"dst", "internal.example"}).Draw(t, "hostopt"))
 		case 5:
-			rt.opts = append(rt.opts, "redirect="+rapid.SampledFrom([]string{"301,https://www.example.com$path", "302,http://h/x", "301", "abc,http://h/", "301,http://%zz/", "308,https://$host$path"}).Draw(t, "redirect"))
+			rt.opts = append(rt.opts, "redirect="+rapid.SampledFrom([]string{"301,https://www.example.com$path", "302,http://h/x", "301", "abc,http://h/", "301,http://%zz/", "308,https://$host$path", "301,/new", "302,/a/b?x=1", "307,//other.example/p"}).Draw(t, "redirect"))
 		case 6:
 			rt.opts = append(rt.opts, rapid.SampledFrom([]string{"allow=ip:10.0.0.0/8", "pxyproto=true", "register=alias", "tlsskipverify=true", "auth=basic1"}).Draw(t, "known"))
 		case 7:
